@@ -336,7 +336,6 @@ func randPad(r *hk.Rng) int {
 func run(e *hk.Env) error {
 	r := e.Rng.Fork()
 	totalLogs, totalBad, trees := 0, 0, 0
-	kindsHist := map[string]int{}
 	shapeHist := map[string]int{}
 
 	// 1. the sibling sweep: two children of one parent whose preformatted has spare capacity
@@ -472,7 +471,6 @@ func run(e *hk.Env) error {
 				e.Sample("samples", map[string]any{"kind": k.String(), "plan": p.describe()}, 5)
 			}
 		}
-		kindsHist[k.String()] = trees
 	}
 
 	// 4. With == call site
